@@ -581,6 +581,25 @@ def gen_c16(tier, seed):
         for j in range(per):
             tape = rand_tape(rng, 40 + 30 * len(doc) * depth)
             protos.append(("c16/%d.%d" % (i, j), [("read", doc, tape), ("line", "dump")]))
+    # the last quoted string of the file ends in a backslash (or another escape) and only bare words,
+    # punctuation and comments follow: nothing after it may be taken for its closing quote
+    # (seeded change C16-3 looked one raw byte back to decide whether a quote is escaped)
+    for i in range(60 if tier == "quick" else 2000):
+        tail = rng.choice([b"\\", b"C:\\iauth\\", b"x\\\\", b"\"\\", b"a\\\"\\", b"\n\\", b"q\\"])
+        ev = lambda: rng.choice("02468")                       # even digit: bare string / small gap / ';'
+        def ent(name, val, quoted):
+            # tape digits of one entry with a string value: pre-gap, name, sep-gap, value, gap, terminator
+            t = ev() + ev() + ev()
+            if quoted:
+                t += rng.choice("13579") + "".join(rng.choice("4499" if c in (92, 34) else "0499") for c in val)
+            else:
+                t += ev()
+            return t + ev() + rng.choice("0246")
+        pre = [(rng.choice(NAMES[:3]), rand_bytes(rng, "token")) for _ in range(rng.choice([0, 1, 2]))]
+        post = [(rng.choice(NAMES[3:5]), rand_bytes(rng, "token")) for _ in range(rng.choice([0, 0, 1, 2]))]
+        doc = [(n, ("S", v)) for n, v in pre] + [(b"z9", ("S", tail))] + [(n, ("S", v)) for n, v in post]
+        tape = "".join(ent(n, v, False) for n, v in pre) + ent(b"z9", tail, True) + "".join(ent(n, v, False) for n, v in post) + "0"
+        protos.append(("c16tail/%d" % i, [("read", doc, tape), ("line", "dump")]))
     # exhaustive windows over small documents
     window, limit = (3, 400) if tier == "quick" else (5, 60000)
     for di, doc in enumerate(SMALL_DOCS):
